@@ -2,7 +2,7 @@
    (ISO/IEC 15444-1 Tables D.1 - D.4): every entry, re-proved against whatever the translator
    emitted.  Then the Go functions on the flag word = Annex D on the neighbourhood the flag
    word encodes, for every integer flag word. *)
-From V Require Import Common.Base T1.T1Ctx.
+From V Require Import Common.Base T1.T1Store T1.T1Ctx.
 Require V.Gen.T1Tables_gen.
 
 Definition zrange (n : nat) : list Z := map Z.of_nat (seq 0 n).
@@ -202,4 +202,36 @@ Proof.
   rewrite nb_mask_split. unfold nbhd_of_flags, sum_h, sum_v, sum_d. cbn [nb_n nb_s nb_w nb_e nb_nw nb_ne nb_sw nb_se].
   destruct (has f T1SigN), (has f T1SigS), (has f T1SigW), (has f T1SigE),
            (has f T1SigNW), (has f T1SigNE), (has f T1SigSW), (has f T1SigSE); reflexivity.
+Qed.
+
+(* ---------- the trie lookups used by the executable model = the list lookups ---------- *)
+Lemma lut_trees_all :
+  forallb (fun i => fget lut_zc_tree i =? znth T1Tables_gen.t1_lut_zc i 0) (zrange 2048) = true /\
+  forallb (fun i => fget lut_sc_tree i =? znth T1Tables_gen.t1_lut_sc i 0) (zrange 256) = true /\
+  forallb (fun i => fget lut_spb_tree i =? znth T1Tables_gen.t1_lut_spb i 0) (zrange 256) = true.
+Proof. vm_compute. repeat split. Qed.
+
+Theorem zc_ctx_t_eq : forall f o, zc_ctx_t f o = zc_ctx f o.
+Proof.
+  intros f o. unfold zc_ctx_t, zc_ctx.
+  destruct lut_trees_all as (H & _ & _). rewrite forallb_forall in H.
+  pose proof (zc_index_range f) as Hr.
+  set (o' := if (o <? 0) || (3 <? o) then 0 else o).
+  assert (Ho : 0 <= o' < 4).
+  { unfold o'. destruct (Z.ltb_spec o 0); cbn [orb]; [lia|]. destruct (Z.ltb_spec 3 o); lia. }
+  apply Z.eqb_eq. apply H. apply zrange_in. lia.
+Qed.
+
+Theorem sc_ctx_t_eq : forall f, sc_ctx_t f = sc_ctx f.
+Proof.
+  intros f. unfold sc_ctx_t, sc_ctx. destruct lut_trees_all as (_ & H & _).
+  rewrite forallb_forall in H. apply Z.eqb_eq. apply H. apply zrange_in.
+  pose proof (sc_index_range f). lia.
+Qed.
+
+Theorem spb_t_eq : forall f, spb_t f = spb f.
+Proof.
+  intros f. unfold spb_t, spb. destruct lut_trees_all as (_ & _ & H).
+  rewrite forallb_forall in H. apply Z.eqb_eq. apply H. apply zrange_in.
+  pose proof (sc_index_range f). lia.
 Qed.
